@@ -102,6 +102,68 @@ func runC09(c string) string {
 				out = append(out, fmt.Sprintf("rows=%s len=%d", sortedRows(f), cf.Len()))
 			}
 		}
+	case "CBV":
+		// the combiner over a value column that has a custom codec (frame.Ops Encode/Decode): "CBV <chunk> <target>"; spilled
+		// runs are written batch by batch through Frame.Encode on views of the sorted frame
+		save := defaultsize.Chunk
+		defaultsize.Chunk = atoi(h[1])
+		defer func() { defaultsize.Chunk = save }()
+		before := tmpEntries("spiller-")
+		typV := slicetype.New(reflect.TypeOf(int64(0)), reflect.TypeOf(ccKind{}))
+		combV, _ := slicefunc.Of(func(a, b ccKind) ccKind { return ccKind{a.V + b.V} })
+		cb, err := exec.VerifNewCombiner(typV, "verif", combV, atoi(h[2]))
+		if err != nil {
+			return "newerr"
+		}
+		ctx := context.Background()
+		for _, p := range parts[1:] {
+			op := fields(p)
+			if len(op) == 0 {
+				continue
+			}
+			switch op[0] {
+			case "combine":
+				rows := parseKV(op[1:])
+				ks := make([]int64, len(rows))
+				vs := make([]ccKind, len(rows))
+				for i, r := range rows {
+					ks[i], vs[i] = r[0], ccKind{int(r[1])}
+				}
+				if err := cb.Combine(ctx, frame.Slices(ks, vs)); err != nil {
+					out = append(out, "combineerr")
+				}
+			case "reader":
+				var dest []int
+				for _, t := range op[2:] {
+					dest = append(dest, atoi(t))
+				}
+				r, err := cb.Reader()
+				if err != nil {
+					out = append(out, "readererr")
+					continue
+				}
+				var rows []string
+				res := "NOEND"
+				for i := 0; i < 4000; i++ {
+					k := dest[i%len(dest)]
+					f := frame.Make(typV, k, k)
+					n, err := r.Read(ctx, f)
+					for j := 0; j < n && j < k; j++ {
+						rows = append(rows, fmt.Sprintf("%d,%d", f.Index(0, j).Int(), f.Index(1, j).Interface().(ccKind).V))
+					}
+					if err != nil {
+						res = errClass(err)
+						break
+					}
+				}
+				out = append(out, fmt.Sprintf("end calls=0:0:%s:0 | rows=%s | altered=0", res, strings.Join(rows, ";")))
+			case "discard":
+				if err := cb.Discard(); err != nil {
+					out = append(out, "discarderr")
+				}
+			}
+		}
+		out = append(out, fmt.Sprintf("spilldirs=%d", tmpEntries("spiller-")-before))
 	case "CBT":
 		// the combiner over another key type: "CBT <kind> <chunk> <target>"; keys are the typed images (kinds.go) of the
 		// case's small naturals, shown converted back
@@ -314,4 +376,5 @@ func (c *c10conv) Read(ctx context.Context, out frame.Frame) (int, error) {
 func init() {
 	runners["C09"] = runC09
 	runners["C10"] = runC10
+	runners["C17red"] = runC10
 }
